@@ -23,28 +23,73 @@ def _rand_sym(rng, terms, nts, sugar, depth=0, allow_nt=True):
     return T(rng.choice(terms))
 
 
-def gen_core(rng, nterm=(2, 5), nnt=(1, 5), sugar=0.12, max_alts=3, max_len=4, eps=0.15,
-             modes=("user", "user", "user", "unit", "pick", "single"), fallible=0.0, npub=(1, 2),
-             pat=0.3):
-    """Random grammar over extern tokens with a mix of action styles (profile `core`)."""
+TEMPLATES = [
+    # classic expression grammar (left recursion, three levels)
+    ("abcde", {"S": [["S", "a", "A"], ["A"]], "A": [["A", "b", "B"], ["B"]], "B": [["c", "S", "d"], ["e"]]}),
+    # right-recursive list
+    ("abc", {"S": [["A"], ["A", "a", "S"]], "A": [["b"], ["c"]]}),
+    # LR(1) but not LALR(1)
+    ("abcde", {"S": [["a", "A", "c"], ["a", "B", "d"], ["b", "B", "c"], ["b", "A", "d"]], "A": [["e"]], "B": [["e"]]}),
+    # nullable prefix chain
+    ("abc", {"S": [["A", "B", "c"]], "A": [["a"], []], "B": [["b"], []]}),
+    # nesting with empty base
+    ("ab", {"S": [["a", "S", "b"], []]}),
+    # centre-marked nesting
+    ("ab", {"S": [["a", "S", "a"], ["b"]]}),
+    # statements
+    ("abcdef", {"S": [["A", "S"], []], "A": [["a", "b"], ["c", "S", "d"], ["e", "B"]], "B": [["b"], ["B", "f", "b"]]}),
+    # reduce decided by lookahead
+    ("abc", {"S": [["A", "a"], ["B", "b"]], "A": [["c"]], "B": [["c"]]}),
+    # LALR(1) but not SLR(1)
+    ("abcd", {"S": [["A", "a"], ["b", "A", "c"], ["d", "c"], ["b", "d", "a"]], "A": [["d"]]}),
+    # nullable in the middle and at the end
+    ("abcd", {"S": [["a", "A", "b", "B"]], "A": [["c", "A"], []], "B": [["B", "d"], []]}),
+    # two starts sharing structure
+    ("abcd", {"S": [["a", "A"], ["b"]], "A": [["S", "c"], ["d"]]}),
+    # deep unit chain
+    ("abc", {"S": [["A"]], "A": [["B"]], "B": [["C"], ["a", "B"]], "C": [["b"], ["c", "S", "c"]]}),
+]
+
+
+def _skeleton_template(rng, sugar):
+    terms_s, rules = rng.choice(TEMPLATES)
+    terms = list(terms_s)
+    names = list(rules.keys())
+    sk = {n: [[(T(x) if x in terms else N(x)) for x in alt] for alt in alts] for n, alts in rules.items()}
+    # random mutations
+    for _ in range(rng.choice([0, 0, 1, 1, 2, 3])):
+        k = rng.random()
+        n = rng.choice(names)
+        if k < 0.35:
+            ln = rng.randint(1, 3)
+            alt = [T(rng.choice(terms))] + [_rand_sym(rng, terms, names, sugar) for _ in range(ln - 1)]
+            sk[n].append(alt)
+        elif k < 0.6:
+            alt = rng.choice(sk[n])
+            if alt:
+                i = rng.randrange(len(alt))
+                if alt[i].k == "t":
+                    alt[i] = Rep(alt[i], rng.choice("*+?")) if rng.random() < 0.6 else Grp([Item(alt[i]), Item(T(rng.choice(terms)))])
+        elif k < 0.8:
+            alt = rng.choice(sk[n])
+            alt.insert(rng.randint(0, len(alt)), T(rng.choice(terms)))
+        else:
+            if len(terms) < 7:
+                terms.append(TERMS[len(terms)])
+            alt = rng.choice(sk[n])
+            alt.insert(rng.randint(0, len(alt)), T(terms[-1]))
+    return terms, names, sk
+
+
+def _skeleton_random(rng, nterm, nnt, sugar, max_alts, max_len, eps, mode_of):
     terms = TERMS[:rng.randint(*nterm)]
     k = rng.randint(*nnt)
     names = NTNAMES[:k]
-    mode = {}
+    sk = {}
     for n in names:
-        mode[n] = rng.choice(modes)
-    # nonterminals whose type is known without inference cycles
-    typed = [n for n in names if mode[n] in ("user", "unit")]
-    if not typed:
-        mode[names[0]] = "user"
-        typed = [names[0]]
-    nts = []
-    for n in names:
-        m = mode[n]
         na = rng.randint(1, max_alts)
         alts = []
         used_first = set()
-        refs = names if m in ("user", "unit") else typed
         for ai in range(na):
             ln = 0 if (rng.random() < eps and na > 1) else rng.randint(1, max_len)
             syms = []
@@ -56,9 +101,45 @@ def gen_core(rng, nterm=(2, 5), nnt=(1, 5), sugar=0.12, max_alts=3, max_len=4, e
                         used_first.add(t)
                         syms.append(T(t))
                         continue
-                syms.append(_rand_sym(rng, terms, refs, sugar))
-            alts.append(Alt([Item(s) for s in syms]))
-        nts.append(NT(n, alts))
+                syms.append(_rand_sym(rng, terms, names, sugar))
+            alts.append(syms)
+        sk[n] = alts
+    return terms, names, sk
+
+
+def _refs_of(sym, out):
+    if sym.k == "n":
+        out.add(sym.name)
+    elif sym.k == "rep":
+        _refs_of(sym.inner, out)
+    elif sym.k == "grp":
+        for it in sym.items:
+            _refs_of(it.sym, out)
+    elif sym.k == "mac":
+        for a in sym.args:
+            _refs_of(a, out)
+
+
+def gen_core(rng, nterm=(2, 5), nnt=(1, 5), sugar=0.12, max_alts=3, max_len=4, eps=0.15,
+             modes=("user", "user", "user", "unit", "pick", "single"), fallible=0.0, npub=(1, 2),
+             pat=0.3, template=0.5):
+    """Random grammar over extern tokens with a mix of action styles (profile `core`)."""
+    if rng.random() < template:
+        terms, names, sk = _skeleton_template(rng, sugar)
+    else:
+        terms, names, sk = _skeleton_random(rng, nterm, nnt, sugar, max_alts, max_len, eps, None)
+    mode = {n: rng.choice(modes) for n in names}
+    # inferred-type nonterminals (pick/single) may only reference nonterminals with declared
+    # types (user/unit), otherwise type inference could cycle; demote offenders to `user`
+    for n in names:
+        if mode[n] in ("pick", "single"):
+            refs = set()
+            for alt in sk[n]:
+                for s in alt:
+                    _refs_of(s, refs)
+            if any(mode[r] in ("pick", "single") for r in refs):
+                mode[n] = "user"
+    nts = [NT(n, [Alt([Item(s) for s in alt]) for alt in sk[n]]) for n in names]
     g = Grammar(nts, terms)
     npubs = min(len(names), rng.randint(*npub))
     for nt in g.nts[:1] + rng.sample(g.nts[1:], npubs - 1):
@@ -303,3 +384,114 @@ def inputs_for(rng, cfg, start, alphabet, exhaustive_budget=400, nrandom=40, nmu
     for i in range(nrandom // 2):
         add([rng.choice(alphabet) for _ in range(rng.randint(0, 12))])
     return out, L
+
+
+# ------------------------------------------------------------------------------------------
+# profile `loc` (C06): sprinkle @L / @R into user-action alternatives
+
+
+def add_locations(rng, g, p=0.6, in_groups=0.3):
+    for nt in g.nts:
+        if nt.ty != "V" or nt.params:
+            continue
+        for alt in nt.alts:
+            if rng.random() > p:
+                continue
+            if alt.action is None:
+                continue
+            used = set()
+            for it in alt.items:
+                if it.bind and it.bind[0] == "name":
+                    used.add(it.bind[1])
+                elif it.bind and it.bind[0] == "pat":
+                    from .gmodel import pat_names
+                    used.update(pat_names(it.bind[1]))
+            fresh = [n for n in ["l", "r", "m", "k", "j", "h"] if n not in used]
+            if not alt.items:
+                alt.items = [Item(Sym("L"), ("name", "l", False)), Item(Sym("R"), ("name", "r", False))]
+                if rng.random() < 0.3:
+                    alt.items.reverse()
+                alt.action = "named"
+                continue
+            any_sel = any(it.bind and it.bind[0] == "sel" for it in alt.items)
+            for _ in range(rng.choice([1, 1, 2, 3])):
+                s = Sym(rng.choice("LR"))
+                pos = rng.randint(0, len(alt.items))
+                # mostly keep lookarounds away from each other: the value of @L next to @R is
+                # not defined by the property statement (see DESIGN, C06 notes)
+                for _try in range(4):
+                    nb = [alt.items[q].sym.k for q in (pos - 1, pos) if 0 <= q < len(alt.items)]
+                    if not any(x in ("L", "R") for x in nb) or rng.random() < 0.1:
+                        break
+                    pos = rng.randint(0, len(alt.items))
+                if alt.action == "named":
+                    if not fresh:
+                        break
+                    b = ("name", fresh.pop(0), False)
+                elif alt.action in ("angle", "angle_multi"):
+                    b = ("sel",) if any_sel and rng.random() < 0.7 else None
+                    if alt.action == "angle_multi" and not any_sel and len(alt.items) >= 7:
+                        break
+                else:
+                    b = None
+                alt.items.insert(pos, Item(s, b))
+            if rng.random() < in_groups:
+                # put a location inside a group / in front of an optional
+                for it in alt.items:
+                    if it.sym.k == "grp" and rng.random() < 0.7 and not any(
+                            x.bind and x.bind[0] in ("name", "pat") for x in it.sym.items) and not (it.bind and it.bind[0] == "pat"):
+                        selg = any(x.bind and x.bind[0] == "sel" for x in it.sym.items)
+                        it.sym.items.insert(rng.randint(0, len(it.sym.items)),
+                                            Item(Sym(rng.choice("LR")), ("sel",) if selg else None))
+    return g
+
+
+def gen_loc(rng, **gk):
+    """profile `loc`: core grammar + nullable real nonterminals whose (empty) span is observable,
+    placed at the start, in the middle and at the end of alternatives, + @L/@R everywhere."""
+    g = gen_core(rng, **gk)
+    user = [nt for nt in g.nts if nt.ty == "V"]
+    if user and rng.random() < 0.8:
+        k = rng.choice([1, 1, 2])
+        for j in range(k):
+            name = "E%s" % ("" if j == 0 else str(j))
+            alts = []
+            style = rng.random()
+            if style < 0.6:
+                items = [Item(Sym("L"), ("name", "l", False)), Item(Sym("R"), ("name", "r", False))]
+                if rng.random() < 0.3:
+                    items.reverse()
+                alts.append(Alt(items, action="named"))
+            else:
+                alts.append(Alt([], action="none_sel"))
+            if rng.random() < 0.4:
+                t = rng.choice(g.terms)
+                alts.append(Alt([Item(Sym("L"), ("name", "l", False)), Item(T(t), ("name", "x", False)), Item(Sym("R"), ("name", "r", False))], action="named"))
+            ent = NT(name, alts, ty="V", inline=False)
+            g.nts.append(ent)
+            # reference it from user alternatives: start / middle / end
+            for _ in range(rng.choice([1, 2, 3])):
+                nt = rng.choice(user)
+                alt = rng.choice(nt.alts)
+                if alt.action is None:
+                    continue
+                where = rng.choice(["start", "start", "end", "mid"])
+                pos = 0 if where == "start" else (len(alt.items) if where == "end" else rng.randint(0, len(alt.items)))
+                if alt.action == "named":
+                    used = {it.bind[1] for it in alt.items if it.bind and it.bind[0] == "name"}
+                    fresh = [n for n in ["e", "f", "g", "h"] if n not in used]
+                    b = ("name", fresh[0], False) if fresh else None
+                elif alt.action in ("angle", "angle_multi"):
+                    any_sel = any(it.bind and it.bind[0] == "sel" for it in alt.items)
+                    b = ("sel",) if any_sel else None
+                    if alt.action == "angle_multi" and len(alt.items) >= 7:
+                        continue
+                else:
+                    b = None
+                if alt.action == "none_sel" and not alt.items:
+                    alt.action = "named"
+                    b = ("name", "e", False)
+                alt.items.insert(pos, Item(N(name), b))
+    add_locations(rng, g, p=0.7)
+    _assign_pids(g)
+    return g
